@@ -159,6 +159,47 @@ fn main() {
         run(&mut t, "v4.local/core", s, || Paseto::<V4, Local>::try_decrypt(s, &k4, None, None));
         run(&mut t, "v4.local/batteries", s, || PasetoParser::<V4, Local>::default().parse(s, &k4));
     }
+    // hostile PAYLOADS inside authentic v2.local tokens (sealed here with the pure-Rust XChaCha20-Poly1305 path; no footer: the
+    // footer comparison is ring's CRYPTO_memcmp, which Miri cannot enter): what the
+    // JSON layer, the expected-claim comparison and the default exp/nbf validators (time / iso8601 parsing) do with them
+    let mut payloads: Vec<String> = Vec::new();
+    for ts in [
+        "2999-01-01T00:00:00Z", "2999-01-01T00:00:00+00:00", "2001-01-01T00:00:00-23:59", "2999-12-31T23:59:59.999999999+23:59", "9999-12-31T23:59:59-05:00", "0000-01-01T00:00:00Z", "2999-02-30T00:00:00Z",
+        "2999-13-01T00:00:00Z", "2999-01-01T24:00:00Z", "2999-01-01T00:00:60Z", "2999-01-01 00:00:00Z", "2999-01-01t00:00:00z", "2999-01-01T00:00Z", "29990101T000000Z", "2999-001T00:00:00Z", "2999-W01-1T00:00:00Z",
+        "2999-01-01T00:00:00+0000", "2999-01-01T00:00:00+25:00", "+002999-01-01T00:00:00Z", "2999-01-01T00:00:00.Z", "2999-01-01T00:00:00,5Z", "", " ", "\u{0}", "\u{ff12}\u{ff19}\u{ff19}\u{ff19}-01-01T00:00:00Z", "2999-01-01T00:00:00Z\u{1F980}",
+        "99999999999999999999-01-01T00:00:00Z", "2999-01-01T00:00:00.123456789012345678901234567890Z",
+    ] {
+        payloads.push(serde_json::json!({"exp": ts, "n": 1}).to_string());
+        payloads.push(serde_json::json!({"nbf": ts, "exp": "2999-01-01T00:00:00Z"}).to_string());
+    }
+    for raw in [
+        "[]", "\"aud\"", "137", "true", "null", "{}", "{\"exp\":0}", "{\"exp\":null}", "{\"exp\":[\"2999-01-01T00:00:00Z\"]}", "{\"exp\":{\"exp\":\"2999-01-01T00:00:00Z\"}}", "{\"a\":1e400}", "{\"a\":-0.0}", "{\"a\":18446744073709551616}",
+        "{\"a\":\"\\ud800\"}", "{\"a\":\"\\u0000\"}", "{\"a\":1,\"a\":2}", "{\"exp\":\"2999-01-01T00:00:00Z\"", "not json", "\u{feff}{}", " {} ",
+    ] {
+        payloads.push(raw.to_string());
+    }
+    payloads.push(format!("{{\"a\":{}1{}}}", "[".repeat(200), "]".repeat(200)));
+    payloads.push(format!("{{\"a\":\"{}\",\"exp\":\"2999-01-01T00:00:00Z\"}}", "x".repeat(5000)));
+    let aud = AudienceClaim::from("customers");
+    for (i, pl) in payloads.iter().enumerate() {
+        let mut nb = [0u8; 32];
+        nb[0] = i as u8;
+        let nn = Key::<32>::from(nb);
+        let tok = match Paseto::<V2, Local>::builder().set_payload(Payload::from(pl.as_str())).try_encrypt(&k2, &PasetoNonce::<V2, Local>::from(&nn)) {
+            Ok(t) => t,
+            Err(_) => continue,
+        };
+        run(&mut t, "v2.local/generic hostile payload", pl, || GenericParser::<V2, Local>::default().parse(&tok, &k2));
+        run(&mut t, "v2.local/generic+check_claim hostile payload", pl, || GenericParser::<V2, Local>::default().check_claim(aud.clone()).parse(&tok, &k2));
+        run(&mut t, "v2.local/batteries-default hostile payload", pl, || PasetoParser::<V2, Local>::default().parse(&tok, &k2));
+    }
+    // claim constructors on hostile text (C18's entry points; pure Rust)
+    for s in ["", " ", "exp", "Exp", "exp\u{0}", "\u{10069}ss", "2999-01-01T00:00:00Z", "2999-01-01", "2999", "\u{ff12}999-01-01T00:00:00Z", "2999-02-30T00:00:00Z", "-2999-01-01T00:00:00Z", "29990101T000000Z", "2999-01-01T00:00:00.123456789012345678901234567890+23:59", "\u{1F980}", &"9".repeat(400)] {
+        run(&mut t, "ExpirationClaim::try_from", s, || ExpirationClaim::try_from(s));
+        run(&mut t, "NotBeforeClaim::try_from(String)", s, || NotBeforeClaim::try_from(s.to_string()));
+        run(&mut t, "IssuedAtClaim::try_from", s, || IssuedAtClaim::try_from(s));
+        run(&mut t, "CustomClaim::try_from", s, || CustomClaim::try_from((s, 1)));
+    }
     // hex keys
     for s in ["", "0", "00", "zz", "00ff", "\u{e9}\u{e9}", &"ab".repeat(31), &"ab".repeat(32), &"ab".repeat(33)] {
         run(&mut t, "Key<32>::try_from", s, || Key::<32>::try_from(s));
